@@ -875,32 +875,44 @@ class Network:
             }
         )
 
-        # Send the connect to peer message
-        await self.server_connection.send_message(
-            ConnectToPeer.Request(ticket, username, typ))
-
         futures = (expected_connection_future, cannot_connect_future)
-        done, pending = await asyncio.wait(
-            futures,
-            timeout=PEER_INDIRECT_CONNECT_TIMEOUT,
-            return_when=asyncio.FIRST_COMPLETED
-        )
+        try:
+            # Send the connect to peer message
+            await self.server_connection.send_message(
+                ConnectToPeer.Request(ticket, username, typ))
 
-        # Whatever happens here, we can cancel all pending futures
-        [fut.cancel() for fut in pending]
+            done, pending = await asyncio.wait(
+                futures,
+                timeout=PEER_INDIRECT_CONNECT_TIMEOUT,
+                return_when=asyncio.FIRST_COMPLETED
+            )
 
-        # `done` will be empty in case of timeout
-        if not done:
-            raise PeerConnectionError(
-                f"indirect connection timed out ({username=}, {ticket=})")
+            # `done` will be empty in case of timeout
+            if not done:
+                raise PeerConnectionError(
+                    f"indirect connection timed out ({username=}, {ticket=})")
 
-        completed_future = done.pop()
+            completed_future = done.pop()
 
-        if completed_future == cannot_connect_future:
-            raise PeerConnectionError(
-                f"indirect connection failed ({username=}, {ticket=})")
+            if completed_future == cannot_connect_future:
+                raise PeerConnectionError(
+                    f"indirect connection failed ({username=}, {ticket=})")
 
-        return completed_future.result()
+            return completed_future.result()
+
+        except BaseException:
+            # A connection that was already accepted for this ticket but is
+            # not going to be returned to the caller (cancellation) is closed
+            if expected_connection_future.done() and not expected_connection_future.cancelled():
+                await expected_connection_future.result().disconnect(CloseReason.REQUESTED)
+            raise
+
+        finally:
+            # Whatever happens here (result, error, send failure, cancellation)
+            # the futures should no longer be waited for: cancelling removes
+            # them from the expected connections / responses
+            for fut in futures:
+                fut.cancel()
 
     async def _handle_connect_to_peer(self, message: ConnectToPeer.Response):
         """Handles an indirect connection request received from the server.
